@@ -299,11 +299,22 @@ def pieces(case):
     return out
 
 
+def file_actor(act) -> bool:
+    """The action is written for the "file interpreter" actor: FILE [PROGRAM-ARGUMENT]..."""
+    return (act is not None and act.get('actor') == 'file' and act['c'] == 'probe' and act.get('in') is None
+            and act.get('t') is None)
+
+
 def render(case) -> str:
     lines = []
+    if file_actor(case.get('act')):
+        lines += ['[conf]', 'actor = file % {PY}', '']
     for ph, lo, hi, first, last in pieces(case):
         if ph == 'act':
-            if case.get('act') is not None:
+            if file_actor(case.get('act')):
+                args = r_list(case['act']['a'])
+                lines += ['[act]', '{PROBE} {OBS}/' + case['act']['o'] + (' ' + args if args else ''), '']
+            elif case.get('act') is not None:
                 lines.append('[act]')
                 lines.extend(r_program(case['act']))
                 lines.append('')
